@@ -82,7 +82,8 @@ func (e *Engine) GenFunc(key string) (vcs []*VC, res *FuncResult) {
 		vcs = append(vcs, vc)
 	}
 	if len(con.Splits) > 0 {
-		vc := e.splitCover(fn, con)
+		// residual case: everything outside the declared split ranges, verified symbolically
+		vc := e.verifyCase(fn, con, []splitChoice{{sp: nil, val: 0}})
 		res.Obls = append(res.Obls, vc.Obls...)
 		vcs = append(vcs, vc)
 	}
@@ -92,6 +93,9 @@ func (e *Engine) GenFunc(key string) (vcs []*VC, res *FuncResult) {
 func caseName(c []splitChoice) string {
 	var parts []string
 	for _, s := range c {
+		if s.sp == nil {
+			return "other"
+		}
 		parts = append(parts, fmt.Sprintf("%s=%d", strings.ReplaceAll(s.sp.Text, " ", ""), s.val))
 	}
 	return strings.Join(parts, ",")
@@ -110,6 +114,8 @@ func (e *Engine) setup(fn *ssa.Function, con *Contract, choice []splitChoice) *f
 	x := &Exec{eng: e, vc: vc, heap0: map[string]*Term{}, top0: Var("top0", SInt), callSeqs: map[string]int{}, sentinels: map[string]*Term{}}
 	x.modeBV = con.Mode == "bv"
 	vc.X = x
+	IntDefs = map[string]*Term{}
+	x.wrapSigned = con.Opts["wrap-signed"] != ""
 	x.opaque = map[string]bool{}
 	for _, n := range strings.Split(con.Opts["opaque"], ",") {
 		if n = strings.TrimSpace(n); n != "" {
@@ -123,6 +129,9 @@ func (e *Engine) setup(fn *ssa.Function, con *Contract, choice []splitChoice) *f
 		var t *Term = Var(p.Name(), s)
 		for _, ch := range choice {
 			sp := ch.sp
+			if sp == nil {
+				continue
+			}
 			if sp.Mod > 0 {
 				if sp.E.Args[0].Kind == "ident" && sp.E.Args[0].Name == p.Name() {
 					q := Var(p.Name()+"$q", SInt)
@@ -343,12 +352,21 @@ func (e *Engine) verifyCase(fn *ssa.Function, con *Contract, choice []splitChoic
 	for _, r := range con.Requires {
 		vc.Assume(pre.evalBool(r.E))
 	}
+	if len(choice) == 1 && choice[0].sp == nil {
+		var outs []*Term
+		for _, sp := range con.Splits {
+			v := pre.evalInt(sp.E)
+			outs = append(outs, Or(Lt(v, IntLit(sp.Lo)), Gt(v, IntLit(sp.Hi))))
+		}
+		vc.Assume(Or(outs...))
+	}
 	for _, r := range con.Assumes {
 		vc.Assume(pre.evalBool(r.E))
 		e.Note("unchecked entry assumption of " + fn.String() + ": " + r.Text)
 	}
 	vc.PreN = len(vc.Assumes)
-	if !con.SafetyOnly || len(con.Requires) > 0 {
+	residual := len(choice) == 1 && choice[0].sp == nil
+	if (!con.SafetyOnly || len(con.Requires) > 0) && !residual {
 		o := vc.Oblige("pre-sat", "pre-sat", True, False, x.pos(fn.Pos()), "precondition is satisfiable (vacuity guard; expected: sat)")
 		o.Result, o.Solver, o.Folded = "", "", false
 	}
@@ -400,7 +418,7 @@ func (e *Engine) verifyCase(fn *ssa.Function, con *Contract, choice []splitChoic
 		}
 		groups = []*exitGroup{g}
 	}
-	{
+	if !residual {
 		// vacuity guard: a normal exit must be reachable under all hypotheses collected on the way
 		o := vc.Oblige("vacuity", "vacuity.exit", True, Not(Or(allCs...)), x.pos(fn.Pos()), "some normal exit is reachable under the accumulated hypotheses (expected: sat)")
 		o.Result, o.Solver, o.Folded = "", "", false
@@ -542,6 +560,14 @@ func (e *Engine) frameChecker(x *Exec, fr *Frame, con *Contract, pre *SpecEnv) f
 		case "call":
 			if ex.Name == "cursor" || ex.Name == "fpos" || ex.Name == "cursorsBelow" {
 				continue // ghost state: no concrete stores
+			}
+			if ex.Name == "deref" {
+				a := pre.eval(ex.Args[0])
+				if pt, isPtr := derefType(a.Ty); isPtr {
+					srt := e.SortOf(pt)
+					al = append(al, allowed{comp: cellComp(srt, isRefType(pt)), ref: a.T})
+					continue
+				}
 			}
 			if ex.Name == "object" {
 				a := pre.eval(ex.Args[0])
